@@ -15,6 +15,17 @@
 4. slicing: real `slice_parties` vs the model `sliceG` (rule by rule), forecasting on the sliced grammar,
    and "visible part of a prefix is a prefix of the sliced spec" with the verified matcher;
 5. fixed probes: computed repetitions at message level, the open-repetition cap, the empty history.
+
+Attribution of what predict() merely relays from the parser (so that parser defects - C05/C06 domain - do not
+count as forecasting defects, and forecasting defects are not hidden behind them):
+  * non-termination of the prefix parse is decided by STEP COUNTS inside the parser (partial trees yielded by
+    `consume`, states admitted by `Column.add`), never by seconds; a 90 s wall-clock backstop is only counted;
+  * "complete not reported" / "no option at all" is attributed to the parser only when the real IterativeParser,
+    asked directly with the same reduced grammar and the same word of message types, rejects the history
+    (COMPLETE mode) / yields no partial tree (INCOMPLETE mode).
+Open findings proposed by this builder are read from proposed_findings/C19.json (same semantics as
+known_findings.json); the model of the code has the variants before/after the repairs of F36 and F41, the
+implementation must agree with one of them.
 """
 from __future__ import annotations
 
@@ -62,6 +73,7 @@ SIG_PARSER_UNBOUNDED_OTHER = "C19/prefix-parse-unbounded"
 SIG_AMBIG = "C19/party-ambiguous-type-in-history"
 SIG_NULLTAIL = "C19/complete-missed-parser-rejects-history(C05)"
 SIG_CAP = "C19/open-repetition-capped"
+SIG_PARSER_PREFIX = "C19/no-forecast-parser-rejects-prefix(C05)"
 
 VERIF = Path(__file__).resolve().parents[2]
 PROPOSED = VERIF / "proposed_findings" / "C19.json"
@@ -236,6 +248,8 @@ def explore(grammar, cases: list[dict], max_trees: int = 2, check_complete_trees
                    "nullable_nt": has_nullable_nt}
             if case["complete"] and not real_complete and h:
                 rec["parser_rejects"] = not pr.parser_accepts(grammar, t)
+            if h and not real and model_next:
+                rec["parser_no_partial_tree"] = not pr.parser_yields_partial_tree(grammar, t)
             if real != model_next or real != model_code or real_complete != case["complete"] \
                     or real_complete != case["code_complete"]:
                 out["mismatch"].append(rec)
@@ -655,7 +669,12 @@ def classify(rec: dict, nullable_head: bool = False) -> tuple[Optional[str], Opt
         missing = [m for m in nx if m not in real]
         what = (f"after {rec['h']} the forecaster offers {real}, the continuations are {nx} "
                 f"(extra {extra}, missing {missing})")
-        if extra and all(m in code for m in extra) and not any(m in fixed for m in extra) and fixed == nx:
+        if not real and rec.get("parser_no_partial_tree"):
+            # predict() walks the partial trees of the prefix parse; asked directly, the real IterativeParser yields
+            # NO partial tree for this valid prefix: a parser completeness defect (C05 domain), not a forecasting one
+            sig, corr = SIG_PARSER_PREFIX, False
+            what += " - the real IterativeParser, asked directly in ParsingMode.INCOMPLETE, yields no partial tree"
+        elif extra and all(m in code for m in extra) and not any(m in fixed for m in extra) and fixed == nx:
             sig = SIG_VISITOR
         elif lost:
             sig = SIG_AMBIG
